@@ -97,6 +97,17 @@ XRUN_VMOPS = {'suite': 'vmops', 'claim': 'every synchronous VM operation == exec
               'stack / memory limits, no panic; state-read routing and memory layout (incl. states returning more values than asked); repeat trip counts; eval; gas sums, limits and out-of-gas before execution; SHA-256 marshalling; EqSet',
               'bound': '41 ops x all operand pairs from 17 boundary words (0, +-1.., 63, 64, 4095, 4096, i64::MIN/MAX..) x 4 stack bases x 3 memories; 3-operand ops over 8 words; range ops over all arrays of <= 3 words from {0,1,7} with '
                        'declared lengths +-1; EqSet over sets of <= 3 items; stacks at 4091..4096 words, memory at the limit; 6 keys x 5 counts x 5 addresses x 3 memory sizes x 4 state ops; 6 cost tables x 15 gas limits'}
+XRUN_VALIDATE = {'suite': 'validate', 'claim': 'check_set / predicate::check / check_contract accept exactly the documented limits and at most one mutation per (contract, key) in the whole set, in every order of the solutions',
+                 'bound': 'each limit at, just below and just above (solutions 0/1/99/100/101, slots 99/100/101, value and key lengths, 999/1000/1001 mutations split over 1..3 solutions, nodes / edges / predicates); '
+                          'all pairs and a third of the triples of solutions over 2 contracts x 2 predicates x 5 key sets'}
+XRUN_CODEC = {'suite': 'codec', 'claim': 'encode_predicate / encode_mutation(s) == documented layouts, decoders invert them, every prefix and garbage input is a typed error (no panic), encoded sizes == lengths, '
+              'predicates at the 1000-node / 1000-edge limits encode, hex <-> words round-trips (negative words, either case)',
+              'bound': 'predicate shapes <= 3 nodes x <= 4 edges with every prefix of the encoding, 7 garbage strings, 6 limit shapes; 36 mutation lists of <= 5 mutations (keys / values of <= 3 boundary words) with every prefix, '
+                       '13 garbage word lists; 91 word sequences of <= 2 boundary words'}
+XRUN_HASH = {'suite': 'hash', 'claim': 'contract / solution-set / predicate / program / solution addresses equal SHA-256 of the documented pre-hash encodings '
+                      '(sorted member addresses as a multiset ++ salt; documented predicate layout; program bytes), all helpers agree, encoded size == length',
+                      'bound': 'address sequences of length <= 3 (thorough 4) over 6 boundary addresses x 3 salts; predicate shapes <= 9 nodes x <= 34 edges (thorough 20 x 70); '
+                               'contracts / sets of <= 3 members drawn with repetition from 3; program lengths around the SHA block size'}
 PROPS = {
     'C05': {'level': 'proof', 'verus_units': ['vm_core'], 'xrun': [XRUN_VMOPS], 'kani': [KANI_VM_OPS_ALL],
             'probes': [{'name': 'probe-breadth', 'input': 'ops [Push(2^40), Compute, ComputeEnd], gas limit 1000, op cost 1',
@@ -114,13 +125,13 @@ PROPS = {
             'explanation': 'state-read ops: operand popping, view/contract routing, memory layout (layout_k), frame'},
     'C12': {'level': 'proof', 'verus_units': ['vm_core'], 'xrun': [XRUN_VMOPS], 'kani': [KANI_VM_OPS_ACCESS],
             'explanation': 'access ops against spec functions; crypto marshalling assumed'},
-    'C06': {'level': 'proof', 'verus_units': ['types_core', 'check_core'],
+    'C06': {'level': 'proof', 'verus_units': ['types_core', 'check_core'], 'xrun': [XRUN_CODEC, XRUN_GRAPH],
             'explanation': 'decoders / validators / graph helpers carry no precondition on the untrusted argument; Verus discharges every index, slice, unwrap/expect, arithmetic obligation'},
-    'C18': {'level': 'proof', 'verus_units': ['types_core'], 'kani': [KANI_TYPES_K1],
+    'C18': {'level': 'proof', 'verus_units': ['types_core'], 'kani': [KANI_TYPES_K1], 'xrun': [XRUN_CODEC],
             'explanation': 'decode_mutation(s) invert the spec encoders on every input; node_edges equals the documented sub-range; fixed-width conversions by complete Kani proofs'},
-    'C16': {'level': 'proof', 'verus_units': ['check_core'],
+    'C16': {'level': 'proof', 'verus_units': ['check_core'], 'xrun': [XRUN_VALIDATE, XRUN_GRAPH],
             'explanation': 'validators accept exactly the documented limits (bi-implications)'},
-    'C04': {'level': 'proof', 'verus_units': ['check_core', 'hash_core'],
+    'C04': {'level': 'proof', 'verus_units': ['check_core', 'hash_core'], 'xrun': [XRUN_VALIDATE, XRUN_GRAPH, XRUN_HASH],
             'explanation': 'set validation verdict is a symmetric predicate of the solutions; one mutation per (contract, key) across the set'},
     'C01': {'level': 'other', 'verus_units': ['check_core'], 'xrun': [XRUN_GRAPH],
             'explanation': 'graph layer only: malformed graphs rejected (create_parent_map Ok <==> graph_ok), helpers panic-free on every graph; orchestration not covered'},
@@ -133,10 +144,7 @@ PROPS = {
             'fallback': [{'when': 'effects::analyze', 'group': KANI_ASM_ANALYZE}],
             'explanation': 'analyze(ops) returns exactly the union of the effect flags of the ops (all slices); bytes_contains_any is outside Verus (by_ref/take/for_each) and checked bounded'},
     'C17': {'level': 'other', 'verus_units': ['hash_core'],
-            'xrun': [{'suite': 'hash', 'claim': 'contract / solution-set / predicate / program / solution addresses equal SHA-256 of the documented pre-hash encodings '
-                      '(sorted member addresses as a multiset ++ salt; documented predicate layout; program bytes), all helpers agree, encoded size == length',
-                      'bound': 'address sequences of length <= 3 (thorough 4) over 6 boundary addresses x 3 salts; predicate shapes <= 9 nodes x <= 34 edges (thorough 20 x 70); '
-                               'contracts / sets of <= 3 members drawn with repetition from 3; program lengths around the SHA block size'}],
+            'xrun': [XRUN_HASH, XRUN_CODEC],
             'explanation': 'partial: solution-set address: the address slice is sorted in place (a permutation) before hashing and sorted arrangements of a multiset are unique, '
                            'hence order independence (Verus lemmas); from_solution_addrs / from_predicate_addrs / Program and Solution addresses verified against spec functions over an '
                            'uninterpreted SHA-256 / postcard; predicate_encoded_size equals the documented size',
